@@ -333,7 +333,7 @@ func explore(t *testing.T, rep *ev.Report, cfg space, deadline time.Time, founds
 				if st.transitions%recheckEvery == 1 || recheckEvery == 1 { // determinism self-check
 					r2 := cfg.run(t, seq, false)
 					st.rechecked++
-					if r2.key != r.key || len(r2.viol) != len(r.viol) {
+					if cmpKey(r2) != cmpKey(r) || len(r2.viol) != len(r.viol) {
 						rep.HarnessError("non-deterministic execution %s %v: %q vs %q", cfg.Name, seqString(seq), r.key, r2.key)
 					}
 				}
@@ -373,17 +373,27 @@ func explore(t *testing.T, rep *ev.Report, cfg space, deadline time.Time, founds
 }
 
 func terminalKind(r result) string {
+	pv := strings.Contains(r.key, "pvtrue")
 	switch {
-	case strings.Contains(r.key, "pvtrue") && strings.Contains(r.key, "gatrue/3"):
-		return "peer-violation->GOAWAY(FLOW_CONTROL_ERROR)"
-	case strings.Contains(r.key, "pvtrue") && strings.Contains(r.key, "cctrue"):
-		return "peer-violation->connection closed"
-	case strings.Contains(r.key, "pvtrue"):
+	case pv && (strings.Contains(r.key, "gatrue/3") || strings.Contains(r.key, "cctrue")):
+		// which of the two a Transport shows is a teardown race (its GOAWAY is written but only flushed by accident)
+		return "peer-violation->connection error (GOAWAY(FLOW_CONTROL_ERROR) or connection closed)"
+	case pv:
 		return "peer-violation->RST_STREAM(FLOW_CONTROL_ERROR)"
 	case strings.Contains(r.key, "gatrue"):
 		return "goaway"
 	}
 	return "other"
+}
+
+// cmpKey is what the determinism self-check compares: the full state key, except for terminal states (the
+// connection is being torn down: which frames still make it to the wire is a race inside the subject and nothing
+// is explored from there).
+func cmpKey(r result) string {
+	if r.terminal {
+		return fmt.Sprintf("terminal viol=%d", len(r.viol))
+	}
+	return r.key
 }
 
 // featureOf buckets an execution by the multiset of action kinds (sizes abstracted), for the coverage count.
